@@ -4,20 +4,24 @@
    semantics: a schedule is a list of thread ids, every theorem quantifies over ALL schedules,
    all numbers of clients and all per-client message lists).
 
-   PARTIAL (see notes/C12.md): proved are the TCP/TLS delivery clauses (prefix at every moment,
-   exactness when the reader ends on EOF / decode error or idles with nothing outstanding), the
-   clients-map clause, the termination measure for both servers (every executed step of every
-   thread decreases it, so no schedule runs for ever and Stop cannot be starved by a loop) and
-   the lockset race-freedom criterion instantiated on the regenerated access table.
-   NOT proved (kept as statements below, in comments): the wait-group equation and "some thread
-   is enabled until all have terminated" (deadlock freedom after Stop), and the UDP
-   order-preserving-subsequence invariant.  They are validated on every run by the guided model
-   run (the model replays each observed trace and must terminate with wg = 0, no thread left,
-   listener closed) and by the -race soak. *)
+   Proved (see notes/C12.md): the TCP/TLS delivery clauses (prefix at every moment, exactness
+   when the reader ends on EOF / decode error or idles with nothing outstanding), the clients-map
+   clause, the UDP order-preserving at-most-once clause, the wait-group equation for both servers
+   (wg = live registered goroutines + registrations whose `go` is still to come; wg = 0 iff all
+   have returned), progress after Stop for both servers (with a draining consumer some thread is
+   enabled until everything has terminated; every fair schedule terminates within t_mu / u_mu
+   rounds with wg = 0, Stop returned, listener / socket closed, clients map empty - for UDP
+   without the ticker), the termination measure, and the lockset race-freedom criterion on both
+   regenerated access tables (collector-only translator and the common translator T5).
+   Residue (tested, not proved): Go scheduler / memory model, channel / WaitGroup / RWMutex
+   semantics as modelled, kernel sockets, promptness in wall-clock terms. *)
 From Coq Require Import List Bool Arith String.
 From Verif.Model Require Import ConcCollector LocksetI.
 From Verif.Gen Require Import LocksCollector.
-From Verif.Proofs Require Import ConcCollector_lemmas ConcTcp_lemmas ConcTcp2_lemmas.
+From Verif.Gen Require Locks.
+From Verif.Model Require LockTab Conc.
+From Verif.Proofs Require Import ConcCollector_lemmas ConcTcp_lemmas ConcTcp2_lemmas ConcCollFair_lemmas
+  ConcTcp3_lemmas ConcUdp_lemmas ConcCollLocks_lemmas.
 From Verif.Driver Require Import C12drv.
 Import ListNotations.
 
@@ -96,12 +100,112 @@ Theorem C12_goroutines_counted :
 Proof. vm_compute. split; [reflexivity | repeat constructor]. Qed.
 Print Assumptions C12_goroutines_counted.
 
-(* NOT PROVED - full statements kept visible:
-   C12_progress : forall cfg sched, let s := t_run true sched (t_init cfg) in
-       t_all_done s = false -> exists t, t_step true s t <> None          (no thread left blocked)
-   C12_all_done : ... t_all_done s = true -> t_wg s = 0 /\ t_clients s = [] /\ t_lis s = false
-   C12_udp_order : forall cfg sched i, Sublist (proj i (u_log s)) (seqs read by the socket loop from i)
-   and the same two for the UDP server. *)
+(* (8) the wait-group equation, TCP/TLS, every schedule, every moment: the counter equals the
+   number of live goroutines registered with it (accept loop, handlers, readers) plus the
+   registrations whose `go` statement has not been executed yet (Start between wg.Add and
+   `go accept`, accept loop between wg.Add and `go handleTCPClient`, handler between wg.Add and
+   `go reader`) ... *)
+Theorem C12_tcp_wg_equation : forall cfg dr sched,
+  let s := t_run dr sched (t_init cfg) in t_wg s = t_wg_live s + t_wg_pending s.
+Proof. exact tcp_wg_equation_lemma. Qed.
+Print Assumptions C12_tcp_wg_equation.
+(* ... hence, once the address is published (the earliest moment Stop may be called), wg = 0
+   exactly when the accept loop and every handler and reader have returned *)
+Theorem C12_tcp_wg_zero_iff : forall cfg dr sched,
+  let s := t_run dr sched (t_init cfg) in
+  t_pub s = true ->
+  (t_wg s = 0 <-> t_acc s = ADone /\ forall c, In c (t_conns s) -> conn_srv_live c = 0).
+Proof. exact tcp_wg_zero_iff_lemma. Qed.
+Print Assumptions C12_tcp_wg_zero_iff.
+(* the same for UDP: socket loop + per-address client goroutines *)
+Theorem C12_udp_wg_equation : forall cfg dr sched,
+  let s := u_run dr sched (u_init cfg) in u_wg s = u_wg_live s + u_wg_pending s.
+Proof. exact udp_wg_equation_lemma. Qed.
+Print Assumptions C12_udp_wg_equation.
+Theorem C12_udp_wg_zero_iff : forall cfg dr sched,
+  let s := u_run dr sched (u_init cfg) in
+  u_pub s = true ->
+  (u_wg s = 0 <-> u_sock s = KDone /\ forall v, In v (u_cls s) -> v_pc v = VDone).
+Proof. exact udp_wg_zero_iff_lemma. Qed.
+Print Assumptions C12_udp_wg_zero_iff.
+
+(* (9) progress after Stop, provided the consumer keeps draining (dr = true): in every reachable
+   state in which not everything has terminated, some thread is enabled (no deadlock) ... *)
+Theorem C12_tcp_progress : forall cfg sched,
+  let s := t_run true sched (t_init cfg) in
+  t_all_done s = false -> exists t, In t (tthreads (List.length cfg)) /\ t_step true s t <> None.
+Proof. exact tcp_progress_lemma. Qed.
+Print Assumptions C12_tcp_progress.
+(* ... a terminated state means: Stop has returned, wg = 0, no goroutine of the process is left,
+   the listener is closed, the clients map is empty ... *)
+Theorem C12_tcp_all_done : forall cfg dr sched,
+  let s := t_run dr sched (t_init cfg) in
+  t_all_done s = true ->
+  t_stop s = PDone /\ t_wg s = 0 /\ t_goroutines s = 0 /\ t_lis s = false /\ t_clients s = [].
+Proof. exact tcp_all_done_lemma. Qed.
+Print Assumptions C12_tcp_all_done.
+(* ... and every fair schedule gets there: t_mu rounds, each scheduling every thread at least
+   once (any order, any repetition), end terminated - i.e. Stop returns, with any number of
+   clients connected, idle, mid-message or holding the connection open *)
+Theorem C12_tcp_fair_terminates : forall cfg rounds,
+  Forall (fun r => incl (tthreads (List.length cfg)) r) rounds ->
+  t_mu (t_init cfg) <= List.length rounds ->
+  t_all_done (t_run true (List.concat rounds) (t_init cfg)) = true.
+Proof. exact tcp_fair_terminates_lemma. Qed.
+Print Assumptions C12_tcp_fair_terminates.
+(* the same for UDP; the thread list contains NO ticker event: shutdown does not rely on the
+   per-address timeout (the closeClientChan handshake is what makes the select of
+   handleUDPMessage non-blocking once a client goroutine has left) *)
+Theorem C12_udp_progress : forall cfg sched,
+  let s := u_run true sched (u_init cfg) in
+  u_all_done s = false -> exists t, In t (uthreads (List.length cfg) (utotal cfg)) /\ u_step true s t <> None.
+Proof. exact udp_progress_lemma. Qed.
+Print Assumptions C12_udp_progress.
+Theorem C12_udp_all_done : forall cfg dr sched,
+  let s := u_run dr sched (u_init cfg) in
+  u_all_done s = true ->
+  u_stop s = PDone /\ u_wg s = 0 /\ u_goroutines s = 0 /\ u_open s = false /\ u_clients s = [].
+Proof. exact udp_all_done_lemma. Qed.
+Print Assumptions C12_udp_all_done.
+Theorem C12_udp_fair_terminates : forall cfg rounds,
+  Forall (fun r => incl (uthreads (List.length cfg) (utotal cfg)) r) rounds ->
+  u_mu (u_init cfg) <= List.length rounds ->
+  u_all_done (u_run true (List.concat rounds) (u_init cfg)) = true.
+Proof. exact udp_fair_terminates_lemma. Qed.
+Print Assumptions C12_udp_fair_terminates.
+
+(* (10) UDP delivery, every schedule, every moment, draining or not: what the consumer received
+   from address i is an order-preserving subsequence (Sub) of the datagrams the socket loop read
+   from that address: nothing invented, nothing overtakes, each datagram at most once *)
+Theorem C12_udp_order : forall cfg dr sched i,
+  let s := u_run dr sched (u_init cfg) in
+  Sub (proj i (u_log s)) (taken (u_addrs s) i).
+Proof. exact udp_order_lemma. Qed.
+Print Assumptions C12_udp_order.
+
+(* ... and, with the per-address sequence numbering 0,1,2,.. of what the exporter sent, the
+   delivered numbers of an address are a subsequence of 0..n-1: none delivered twice, none that
+   was not sent, increasing *)
+Theorem C12_udp_at_most_once : forall cfg dr sched i,
+  let s := u_run dr sched (u_init cfg) in
+  Sub (proj i (u_log s)) (seq 0 (match nth_error cfg i with Some cc => List.length (uc_msgs cc) | None => 0 end)) /\
+  NoDup (proj i (u_log s)).
+Proof. exact udp_at_most_once_lemma. Qed.
+Print Assumptions C12_udp_at_most_once.
+
+(* (11) race freedom on the table of the COMMON translator T5 (Gen/Locks.v collector_accesses,
+   vocabulary Model/LockTab.v): every class may run in several instances and in parallel with
+   every other, except Start (called once) *)
+Theorem C12_lockset_collector_T5 : LockTab.lockset_ok coll_thr coll_multi Locks.collector_accesses = true.
+Proof. exact coll_lockset_ok. Qed.
+Print Assumptions C12_lockset_collector_T5.
+Theorem C12_race_free_T5 : forall tr,
+  Conc.lock_wf tr -> Conc.consistent coll_thr coll_multi Locks.collector_accesses tr ->
+  forall p3 t2 b r2 p2 t1 a r1 p1,
+    tr = (p3 ++ (t2, Conc.Acc b r2) :: p2 ++ (t1, Conc.Acc a r1) :: p1)%list ->
+    t1 <> t2 -> Conc.racy a b = true -> Conc.ordered_between t1 t2 p2.
+Proof. exact coll_race_free. Qed.
+Print Assumptions C12_race_free_T5.
 
 (* the proviso "provided the consumer keeps draining" is needed: without it a reader stays blocked
    on messageChan, Stop never returns (wg > 0) and nothing is enabled *)
@@ -119,6 +223,28 @@ Proof. vm_compute. split; reflexivity. Qed.
    terminated, wg = 0 *)
 Example C12_nonvacuous :
   c12_run (Verif.Base.Str.tokens "tcp quiet 2 close:tddxd hold:td"%string)
-          (Verif.Base.Str.tokens "deliv 0 0 1 0 0 1 1 1 0 2 ; conns 1 ; stop ok ; left 0 ; port closed ; conns2 0 ; numrec 5"%string)
-  = "deliv 0 0 1 0 0 1 1 1 0 2 ; conns 1 ; stop ok ; left 0 ; port closed ; conns2 0 ; numrec 5 | T T"%string.
+          (Verif.Base.Str.tokens "deliv 0 0 1 0 0 1 1 1 0 2 ; conns 1 ; stop ok ; left 0 ; port closed ; conns2 0 ; numrec 5 ; garbled 0"%string)
+  = "deliv 0 0 1 0 0 1 1 1 0 2 ; conns 1 ; stop ok ; left 0 ; port closed ; conns2 0 ; numrec 5 ; garbled 0 | T T"%string.
 Proof. vm_compute. reflexivity. Qed.
+
+(* non-vacuity of (10): a run in which the ticker fires between two datagrams of address 0: the
+   second datagram is dropped on closeClientChan, the third is delivered by a new client
+   goroutine - delivered [0;2] out of read [0;1;2], two goroutines created *)
+Example C12_udp_order_nonvacuous :
+  let s := u_run true ([UStart; UStart; UStart; UStart; USend 0; USock; USock; USock; UCl 0; UCl 0; UCl 0;
+                        USend 0; USock; USock; UTick 0; UCl 0; UCl 0; USock;
+                        USend 0; USock; USock; USock; UCl 1; UCl 1])
+                 (u_init [mkUcfg [(KT, false); (KT, false); (KT, false)]]) in
+  proj 0 (u_log s) = [0; 2] /\ taken (u_addrs s) 0 = [0; 1; 2] /\ List.length (u_cls s) = 2.
+Proof. vm_compute. repeat split. Qed.
+
+(* non-vacuity of (9): round-robin over all threads is a fair schedule; two connections (one
+   holding until Stop, one cut in the middle of a frame) and two UDP exporters *)
+Example C12_fair_nonvacuous :
+  let cfg := [mkCcfg [KT; KD] EHold; mkCcfg [KT; KX; KD] ECut] in
+  let s := t_run true (List.concat (repeat (tthreads 2) (t_mu (t_init cfg)))) (t_init cfg) in
+  t_all_done s = true /\ t_wg s = 0 /\ t_stop s = PDone /\
+  let ucfg := [mkUcfg [(KT, false); (KD, true); (KD, false)]; mkUcfg [(KD, false)]] in
+  let u := u_run true (List.concat (repeat (uthreads 2 (utotal ucfg)) (u_mu (u_init ucfg)))) (u_init ucfg) in
+  u_all_done u = true /\ u_wg u = 0 /\ u_stop u = PDone.
+Proof. vm_compute. repeat split. Qed.
